@@ -112,6 +112,13 @@ def sweep(tier):
                 out.append({"kind": "pair", "a": a, "b": b, "req": req, "style": style, "literal": False, "defaults": False})
         out.append({"kind": "pair", "a": a, "b": b, "req": [True, False], "style": "inline_inline", "literal": False,
                     "defaults": False, "req_split": True})
+    # pairs that have a conjunction, with a default on both declarations (a default is converted again when properties merge)
+    for a, b in pairs():
+        if meet(a, b) is None:
+            continue
+        for style in ("ref_ref", "inline_inline"):
+            for literal in (False, True):
+                out.append({"kind": "pair", "a": a, "b": b, "req": [False, False], "style": style, "literal": literal, "defaults": True})
     # every pair once more under a JSON name that is not its own Python identifier
     for a, b in pairs():
         out.append({"kind": "pair", "a": a, "b": b, "req": [True, False], "style": "ref_inline", "literal": False, "defaults": False,
@@ -238,7 +245,7 @@ def _pair_doc(case, order):
     ra, rb = case["req"]
     if case.get("defaults"):
         for k, s in ((a, sa), (b, sb)):
-            if k in ("str", "int", "num", "bool", "enum_ab", "enum_a", "ienum_12", "ienum_1", "date") and "$ref" not in s:
+            if (k in ("str", "int", "num", "bool", "date", "datetime", "uuid") or "enum" in k) and "$ref" not in s:
                 s["default"] = SAMPLES[k]
     split = bool(case.get("req_split")) and case.get("style") == "inline_inline"
     P1 = {"type": "object", "properties": {nm: sa, "only1": {"type": "string"}}, **({"required": [nm]} if ra and not split else {})}
@@ -339,8 +346,12 @@ def _run_pair(case, ctx):
         ctx.label("shared_name_not_an_identifier")
     ctx.sample = case
     ctx.label("pair:meet" if m else "pair:no_meet")
-    for o in (o0, o1):
-        if o[0] in ("crash", "rejected", "import_failed"):
+    for k_order, o in enumerate((o0, o1)):
+        if o[0] == "import_failed":
+            # the composition was accepted without a diagnostic, yet the package holding it cannot be imported
+            ctx.violation("composed.package_imports", {**site, "defaults": bool(case.get("defaults"))}, f"order {k_order}: {o[1]}")
+            return
+        if o[0] in ("crash", "rejected"):
             ctx.skip("generator_" + o[0])
             return
     kinds = (o0[0], o1[0])
